@@ -14,8 +14,9 @@ class elfstructs_init:
 
 @contract("elftools/elf/structs.py", "ELFStructs.create_basic_structs", props=["C19", "C01"])
 class create_basic_structs:
-    """(assumed: no effect on the K1 model) the struct factories are the subject of the K2 obligations:
-    every struct they build is compared with its specification layout in every configuration"""
+    """(assumed in K1: no effect on the model, no exception) the struct factories are the subject of the K2 obligations:
+    every struct they build is compared with its specification layout in every configuration; that they RETURN in every
+    configuration is the ground obligation c19-struct-factories-raise-nothing (tasks/k2_elf.py), decided on every run"""
     mode = 'assume'
 
 
